@@ -677,6 +677,11 @@ impl Interp {
                 self.put(op.arg(0), Obj::Dst { kind, obj, model, snapshot: img });
             }
             Call::OomPanic(_) => {
+                if precondition_broken {
+                    // whatever the failure did, this call was going to panic by
+                    // contract after its allocation: the same excuse applies
+                    self.excused_ops.push(self.cur as u32 + 1);
+                }
                 self.note(&[2, kind as u64], &[]);
             }
             Call::Panic(msg) => {
